@@ -44,6 +44,12 @@ type histOp struct {
 	NNP    bool            `json:"nnp"`
 	Events []probeEv       `json:"events,omitempty"`
 	Staged bool            `json:"staged,omitempty"` // the policy value is first assembled / dumped in an earlier shape, then completed, then loaded
+	// loadpair: thread T loads Policy and is held at the seccomp(2) seam (no_new_privs set, sock_fprog built) while thread
+	// T2 performs a complete LoadFilter of Policy2 (Flags2/NNP2); then T is released
+	T2      int             `json:"t2,omitempty"`
+	Policy2 *engine.PolJSON `json:"policy2,omitempty"`
+	Flags2  uint32          `json:"flags2,omitempty"`
+	NNP2    bool            `json:"nnp2,omitempty"`
 }
 
 type histScript struct {
@@ -58,6 +64,10 @@ type seamCall struct {
 	Len     int    `json:"len"`
 	Hash    string `json:"hash"`
 	NNPSeam int    `json:"nnp_at_seam"`
+	// for the call that was held at the seam: length and digest of the sock_fprog when it was released
+	HeldLen  int    `json:"held_len,omitempty"`
+	HeldHash string `json:"held_hash,omitempty"`
+	Held     bool   `json:"held,omitempty"`
 }
 
 type threadObs struct {
@@ -79,6 +89,9 @@ type histResult struct {
 	Errnos   []int       `json:"errnos,omitempty"`
 	Compiled string      `json:"compiled_hash,omitempty"`
 	CompLen  int         `json:"compiled_len,omitempty"`
+	Err2     *string     `json:"err2,omitempty"` // loadpair: result of the second thread's load
+	Tid2     int         `json:"tid2,omitempty"`
+	Reached  bool        `json:"reached_seam,omitempty"`
 }
 
 func gettid() int { r, _, _ := syscall.RawSyscall(syscall.SYS_GETTID, 0, 0, 0); return int(r) }
@@ -188,6 +201,9 @@ func childHist(args []string) {
 	}
 	var seamMu sync.Mutex
 	var seams []seamCall
+	var holdTid int
+	var holdArmed int32
+	var atSeam, release chan struct{}
 	seccomp.VerifSeccompSeam = func(op uintptr, flags seccomp.FilterFlag, uargs unsafe.Pointer) {
 		c := seamCall{Tid: gettid(), Op: uint64(op), Flags: uint64(flags), Len: -1}
 		r, _, _ := syscall.RawSyscall6(syscall.SYS_PRCTL, prGetNoNewPrivs, 0, 0, 0, 0, 0)
@@ -197,6 +213,18 @@ func childHist(args []string) {
 			c.Len = int(fp.Len)
 			if fp.Filter != nil && fp.Len > 0 {
 				c.Hash = hashSock(unsafe.Slice(fp.Filter, int(fp.Len)))
+			}
+		}
+		if op == seccompSetModeFilt && holdTid != 0 && c.Tid == holdTid && atomic.CompareAndSwapInt32(&holdArmed, 1, 0) {
+			close(atSeam)
+			<-release
+			c.Held = true
+			if uargs != nil {
+				fp := (*syscall.SockFprog)(uargs)
+				c.HeldLen = int(fp.Len)
+				if fp.Filter != nil && fp.Len > 0 {
+					c.HeldHash = hashSock(unsafe.Slice(fp.Filter, int(fp.Len)))
+				}
 			}
 		}
 		seamMu.Lock()
@@ -259,6 +287,41 @@ func childHist(args []string) {
 				}
 			})
 			res.Seam = append(res.Seam, seams...)
+		case "loadpair":
+			_, polA := engine.FromJSON(*op.Policy)
+			_, polB := engine.FromJSON(*op.Policy2)
+			seams = nil
+			atSeam, release = make(chan struct{}), make(chan struct{})
+			holdTid = workers[op.T].tid
+			atomic.StoreInt32(&holdArmed, 1)
+			doneA := make(chan struct{})
+			workers[op.T].ch <- func() {
+				res.Tid = gettid()
+				if err := seccomp.LoadFilter(seccomp.Filter{NoNewPrivs: op.NNP, Flag: seccomp.FilterFlag(op.Flags), Policy: *polA}); err != nil {
+					s := err.Error()
+					res.Err = &s
+				}
+				close(doneA)
+			}
+			select {
+			case <-atSeam:
+				res.Reached = true
+			case <-doneA: // failed before it got there
+			}
+			run(op.T2, func() {
+				res.Tid2 = gettid()
+				if err := seccomp.LoadFilter(seccomp.Filter{NoNewPrivs: op.NNP2, Flag: seccomp.FilterFlag(op.Flags2), Policy: *polB}); err != nil {
+					s := err.Error()
+					res.Err2 = &s
+				}
+			})
+			atomic.StoreInt32(&holdArmed, 0)
+			close(release)
+			<-doneA
+			holdTid = 0
+			seamMu.Lock()
+			res.Seam = append(res.Seam, seams...)
+			seamMu.Unlock()
 		case "supported":
 			seams = nil
 			run(op.T, func() {
